@@ -160,6 +160,11 @@ class Reader:
                 raise FlipJumpReadFjmException(
                     f"Bad .fjm file: segment data-length {data_length} exceeds the segment-length {segment_length}."
                 )
+            if segment_start + segment_length >= (1 << 64):
+                raise FlipJumpReadFjmException(
+                    f"Bad .fjm file: segment [{segment_start}, {segment_start + segment_length}) is outside the "
+                    f"64-bit word-address space."
+                )
         sorted_ranges = sorted((start, start + length) for start, length, _, _ in segments)
         for (_, previous_end), (next_start, _) in zip(sorted_ranges, sorted_ranges[1:]):
             if next_start < previous_end:
